@@ -33,6 +33,7 @@ import (
 	"github.com/ethereum/go-ethereum/common"
 	ethtypes "github.com/ethereum/go-ethereum/core/types"
 
+	utiltx "github.com/haqq-network/haqq/testutil/tx"
 	haqqtypes "github.com/haqq-network/haqq/types"
 	"github.com/haqq-network/haqq/utils"
 	evmtypes "github.com/haqq-network/haqq/x/evm/types"
@@ -72,7 +73,8 @@ type efMsg struct {
 type efCosmos struct {
 	Gas     string `json:"gas"`
 	Fee     string `json:"fee"`     // aISLM amount; "" = no fee coins at all
-	Ext     string `json:"ext"`     // none | dynfee
+	Ext     string `json:"ext"`     // none | dynfee | web3 (legacy EIP-712 extension option: its own ante chain)
+	Sign    string `json:"sign"`    // direct | amino | eip712 (web3 is always signed the legacy EIP-712 way)
 	MaxPrio string `json:"maxPrio"` // MaxPriorityPrice of the DynamicFee extension option
 	Amount  string `json:"amount"`  // amount sent
 }
@@ -126,7 +128,7 @@ func efNewNode(w *World, par efParams) *Node {
 }
 
 // efBuildCosmosTx is chainkit's BuildCosmosTx plus extension options.
-func efBuildCosmosTx(k Key, gas uint64, fee sdk.Coins, accNum, seq uint64, ext *codectypes.Any, msgs ...sdk.Msg) ([]byte, error) {
+func efBuildCosmosTx(k Key, mode signing.SignMode, gas uint64, fee sdk.Coins, accNum, seq uint64, ext *codectypes.Any, msgs ...sdk.Msg) ([]byte, error) {
 	b := txConfig.NewTxBuilder()
 	if err := b.SetMsgs(msgs...); err != nil {
 		return nil, err
@@ -136,7 +138,6 @@ func efBuildCosmosTx(k Key, gas uint64, fee sdk.Coins, accNum, seq uint64, ext *
 	if ext != nil {
 		b.(authtx.ExtensionOptionsTxBuilder).SetExtensionOptions(ext)
 	}
-	mode := signing.SignMode_SIGN_MODE_DIRECT
 	sig := signing.SignatureV2{PubKey: k.Priv.PubKey(), Data: &signing.SingleSignatureData{SignMode: mode}, Sequence: seq}
 	if err := b.SetSignatures(sig); err != nil {
 		return nil, err
@@ -243,7 +244,31 @@ func efPrepare(sc efScenario, par efParams) (*efRun, error) {
 			ext = a
 		}
 		msg := banktypes.NewMsgSend(r.sender.Addr, r.rcpt.Addr, sdk.NewCoins(sdk.NewCoin(utils.BaseDenom, sdkmath.NewIntFromBigInt(mustBig(c.Amount)))))
-		bz, err := efBuildCosmosTx(r.sender, efU64(c.Gas), fee, acc.GetAccountNumber(), acc.GetSequence(), ext, msg)
+		var bz []byte
+		var err error
+		switch {
+		case c.Ext == "web3" || c.Sign == "eip712":
+			// EIP-712 typed data signed with the Ethereum key: with the Web3Tx extension option (legacy
+			// typed data, FeePayerSig; routed to the legacy EIP-712 ante chain) or as the signature of an
+			// ordinary transaction on the default chain
+			if ext != nil {
+				return nil, fmt.Errorf("eip712 signing with extension option %q is not scripted", c.Ext)
+			}
+			legacy := c.Ext == "web3"
+			b, err2 := utiltx.PrepareEIP712CosmosTx(ctx, n.App, utiltx.EIP712TxArgs{
+				CosmosTxArgs:       utiltx.CosmosTxArgs{TxCfg: txConfig, Priv: r.sender.Priv, ChainID: ChainID, Gas: efU64(c.Gas), Fees: fee, Msgs: []sdk.Msg{msg}},
+				UseLegacyExtension: legacy, UseLegacyTypedData: legacy})
+			if err2 != nil {
+				return nil, err2
+			}
+			bz, err = txConfig.TxEncoder()(b.GetTx())
+		case c.Sign == "amino":
+			bz, err = efBuildCosmosTx(r.sender, signing.SignMode_SIGN_MODE_LEGACY_AMINO_JSON, efU64(c.Gas), fee, acc.GetAccountNumber(), acc.GetSequence(), ext, msg)
+		case c.Sign == "direct":
+			bz, err = efBuildCosmosTx(r.sender, signing.SignMode_SIGN_MODE_DIRECT, efU64(c.Gas), fee, acc.GetAccountNumber(), acc.GetSequence(), ext, msg)
+		default:
+			return nil, fmt.Errorf("unknown sign mode %q", c.Sign)
+		}
 		if err != nil {
 			return nil, err
 		}
@@ -366,10 +391,16 @@ func efNeedsTwin(sc efScenario) bool {
 
 func efNorm(sc efScenario) efScenario {
 	if sc.Cos == nil {
-		sc.Cos = &efCosmos{Gas: "0", Fee: "0", Ext: "none", MaxPrio: "0", Amount: "0"}
+		sc.Cos = &efCosmos{Gas: "0", Fee: "0", Ext: "none", Sign: "direct", MaxPrio: "0", Amount: "0"}
 	}
 	if sc.Cos.Ext == "" {
 		sc.Cos.Ext = "none"
+	}
+	if sc.Cos.Ext == "web3" {
+		sc.Cos.Sign = "eip712"
+	}
+	if sc.Cos.Sign == "" {
+		sc.Cos.Sign = "direct"
 	}
 	if sc.Cos.MaxPrio == "" {
 		sc.Cos.MaxPrio = "0"
@@ -479,7 +510,7 @@ func efOneScenario(tw *TraceWriter, scn int, src string, sc efScenario) {
 		l = l[:200]
 	}
 	tw.Emit(M{"ev": "tx", "scn": scn, "src": src, "tag": sc.Tag, "cfgJson": jsonStr(sc), "par": par, "route": sc.Route,
-		"cos":  M{"gas": c.Gas, "fee": feeStr, "hasFee": c.Fee != "", "ext": c.Ext, "maxPrio": c.MaxPrio, "amount": c.Amount},
+		"cos":  M{"gas": c.Gas, "fee": feeStr, "hasFee": c.Fee != "", "ext": c.Ext, "sign": c.Sign, "maxPrio": c.MaxPrio, "amount": c.Amount},
 		"msgs": msgs, "pre": pre, "post": post,
 		"res": M{"code": int(res.Code), "codespace": res.Codespace, "gasUsed": fmt.Sprint(res.GasUsed), "gasWanted": fmt.Sprint(res.GasWanted), "log": l}})
 }
@@ -561,10 +592,19 @@ func efRandomScenario(rnd *rand.Rand, seed int64) efScenario {
 		if rnd.Intn(3) == 0 {
 			fee.Add(fee, big.NewInt(int64(rnd.Intn(int(gas%1000000)+1))))
 		}
-		c := &efCosmos{Gas: fmt.Sprint(gas), Fee: fee.String(), Ext: "none", MaxPrio: "0", Amount: fmt.Sprint(1 + rnd.Intn(1000))}
-		if rnd.Intn(2) == 0 {
+		c := &efCosmos{Gas: fmt.Sprint(gas), Fee: fee.String(), Ext: "none", Sign: "direct", MaxPrio: "0", Amount: fmt.Sprint(1 + rnd.Intn(1000))}
+		// entry point: DynamicFee extension option, or the default chain signed direct / amino-json /
+		// EIP-712, or the legacy EIP-712 chain (Web3Tx extension option)
+		switch rnd.Intn(8) {
+		case 0, 1, 2:
 			c.Ext = "dynfee"
 			c.MaxPrio = efNear(rnd, new(big.Int).Abs(new(big.Int).Sub(price, effBase))).String()
+		case 3:
+			c.Sign = "amino"
+		case 4:
+			c.Sign = "eip712"
+		case 5, 6:
+			c.Ext, c.Sign = "web3", "eip712"
 		}
 		sc.Route, sc.Cos = "cosmos", c
 		return sc
